@@ -300,6 +300,9 @@ func checkSinkWiring(w *World, r *Report, runs *motionRuns) {
 
 // provablyNonNil: value is (an interface holding) the result of an allocation, of a function
 // all of whose returns are provably non-nil, or a phi of such.
+// nilWorld: the program in which provablyNonNil looks up the callers of a function (set by the loader).
+var nilWorld *World
+
 func provablyNonNil(v ssa.Value, depth int) (bool, string) {
 	if depth > 6 {
 		return false, "too deep"
@@ -338,6 +341,43 @@ func provablyNonNil(v ssa.Value, depth int) (bool, string) {
 		return true, "every return of " + callee.Name() + " is a fresh allocation"
 	case *ssa.Const:
 		return false, "constant nil"
+	case *ssa.Parameter:
+		// a parameter of a function that is only ever called directly: non-nil when every call passes a non-nil value
+		fn := x.Parent()
+		if nilWorld == nil || fn == nil || fn.Parent() != nil {
+			break
+		}
+		idx := -1
+		for i, p := range fn.Params {
+			if p == x {
+				idx = i
+			}
+		}
+		n := 0
+		for g := range nilWorld.AllFuncs {
+			for _, b := range g.Blocks {
+				for _, in := range b.Instrs {
+					for _, op := range in.Operands(nil) {
+						if *op == ssa.Value(fn) {
+							if ci, isCall := in.(ssa.CallInstruction); !isCall || ci.Common().Value != ssa.Value(fn) {
+								return false, fn.Name() + " is used as a value"
+							}
+						}
+					}
+					ci, ok := in.(ssa.CallInstruction)
+					if !ok || ci.Common().StaticCallee() != fn || idx >= len(ci.Common().Args) {
+						continue
+					}
+					n++
+					if ok, why := provablyNonNil(ci.Common().Args[idx], depth+1); !ok {
+						return false, "argument at a call of " + fn.Name() + ": " + why
+					}
+				}
+			}
+		}
+		if n > 0 {
+			return true, "every call of " + fn.Name() + " passes a non-nil value"
+		}
 	}
 	return false, fmt.Sprintf("cannot show %s non-nil", v.Name())
 }
